@@ -625,6 +625,7 @@ def s8_archetype_claims(prog):
     S = pathsem.strip_refs
     ai = adt_field_index(prog, 'query::result::archetype_claims::ArchetypeClaims', 'archetypes_iter')
     n_some = n_none = 0
+    split = False
 
     def from_archetypes(it):
         root = pathsem.iter_chain(it)[0]
@@ -638,11 +639,17 @@ def s8_archetype_claims(prog):
                 once('gives-up-early', None, 'returns None although the archetype iterator is not exhausted (an archetype that does not match the filter ends the list): claims of later archetypes are never recorded or checked')
             continue
         v = p.ret
-        if not (isinstance(v, tuple) and v[0] == 'agg' and v[2] == 'Some' and isinstance(v[4][0], tuple) and v[4][0][0] == 'agg' and v[4][0][1] == 'tuple' and len(v[4][0][4]) == 2):
+        if not (isinstance(v, tuple) and v[0] == 'agg' and v[2] == 'Some' and isinstance(v[4][0], tuple) and v[4][0][0] == 'agg' and v[4][0][1] == 'tuple' and len(v[4][0][4]) in (2, 3)):
             once('shape', None, 'cannot see the (identifier, claims) pair returned (%s)' % pathsem.tstr(v)[:120])
             continue
         n_some += 1
-        ident, claims = v[4][0][4]
+        if len(v[4][0][4]) == 3:
+            # (identifier, view claims, entry-view claims): the merge is left to the consumers (checked below)
+            ident, c1, c2 = v[4][0][4]
+            split = True
+            claims = None
+        else:
+            ident, claims = v[4][0][4]
         arch = None
         if isinstance(ident, tuple) and ident[0] == 'call' and ident[1].endswith('::identifier'):
             arch = pathsem.canon(S(ident[2][0]))
@@ -652,9 +659,9 @@ def s8_archetype_claims(prog):
             once('unfiltered', None, 'a (identifier, claims) pair is produced for an archetype that was not found to match the task filter')
         if not (isinstance(arch, tuple) and pathsem.mentions(arch, lambda t: pathsem.is_field_of(t, 'query::result::archetype_claims::ArchetypeClaims', ai))):
             once('other-archetype', None, 'the identifier returned is not that of an archetype taken from the archetype iterator')
-        me = [e for e in p.calls(lambda e: e['name'] == 'merge_unchecked') if e['ret'] == S(claims)]
+        me = [e for e in p.calls(lambda e: e['name'] == 'merge_unchecked') if claims is not None and e['ret'] == S(claims)]
         srcs = set()
-        for e in me[:1]:
+        for e in (me[:1] if claims is not None else [{'vals': (c1, c2)}]):
             for v_ in e['vals']:
                 v_ = S(v_)
                 for c in p.calls(lambda c: c['name'] == 'claims' and c['ret'] == v_):
@@ -666,6 +673,31 @@ def s8_archetype_claims(prog):
             once('claims', None, 'the claims returned are not the merge of the task view claims and entry-view claims (found %s)' % sorted(srcs))
     if not n_some or not n_none:
         once('shape', None, 'expected both Some and None results (found %d / %d)' % (n_some, n_none))
+    if split:
+        # every consumer of the list merges the two claims of an element before it uses them
+        cons = [g for g in prog.fns.values() if g.kind != 'Closure' and any(True for _ in g.body.calls(lambda c: c['name'] == 'query_archetype_claims'))]
+        if not cons:
+            once('claims', None, 'view claims and entry-view claims are returned separately but no consumer was found')
+        for g in cons:
+            Eg = pathsem.analyse(prog, g, max_paths=30000)
+            bad = Eg.truncated
+            for p in Eg.paths:
+                if p.ended not in ('return', 'cutoff'):
+                    continue
+                writes = p.calls(lambda e: 'HashMap' in e['path'] and e['name'] in ('insert', 'entry', 'insert_unique_unchecked', 'extend', 'get_mut', 'try_insert', 'get'))
+                if not writes:
+                    continue
+                merged = False
+                for e in p.calls(lambda e: e['name'] in ('merge_unchecked', 'try_merge') and len(e['args']) == 2):
+                    x, y = S(e['vals'][0]), S(e['vals'][1])
+                    while isinstance(y, tuple) and y[0] == 'd':
+                        y = S(y[1])
+                    if isinstance(x, tuple) and isinstance(y, tuple) and x[0] == y[0] == 'f' and x[1] == y[1] and {x[2], y[2]} == {1, 2} and e['i'] < writes[0]['i']:
+                        merged = True
+                if not merged:
+                    bad = True
+            if bad:
+                r.viol('S8', '%s/claims-not-merged' % g.name, g.loc(), 'ArchetypeClaims yields view claims and entry-view claims separately, but %s uses an element without merging the two first: components reached only through entry views go unclaimed' % g.name)
     return r
 
 
